@@ -44,6 +44,34 @@ type Solver struct {
 	dumpN    int
 	lastFile string
 	restarted bool
+	alias     map[int]*Term // proven-equal representatives (path-scoped, set by the executor)
+}
+
+// resolve follows proven equalities: a term is printed as its representative.
+func (s *Solver) resolve(t *Term) *Term {
+	for s.alias != nil {
+		r, ok := s.alias[t.id]
+		if !ok {
+			break
+		}
+		t = r
+	}
+	return t
+}
+
+func (s *Solver) ref(t *Term) string { return refSMT(s.resolve(t), s.bv) }
+
+func (s *Solver) body(t *Term) string {
+	if len(s.alias) == 0 {
+		return bodySMT(t, s.bv)
+	}
+	// print with resolved arguments
+	cp := *t
+	cp.args = make([]*Term, len(t.args))
+	for i, a := range t.args {
+		cp.args[i] = s.resolve(a)
+	}
+	return bodySMT(&cp, s.bv)
 }
 
 func NewSolver(bin string, timeoutMs int) *Solver {
@@ -129,18 +157,19 @@ func (s *Solver) emit(t *Term) {
 		return
 	}
 	for _, a := range t.args {
-		s.emit(a)
+		s.emit(s.resolve(a))
 	}
 	if t.op == "uf" && !s.declUF[t.name] {
 		s.declUF[t.name] = true
 		ar := strings.Repeat("Real ", len(t.args))
 		s.sendPerm(fmt.Sprintf("(declare-fun uf_%s (%s) Real)", t.name, ar))
 	}
-	s.sendPerm(fmt.Sprintf("(define-fun %s () %s %s)", smtName(t), sortSMT(t.sort, s.bv), bodySMT(t, s.bv)))
+	s.sendPerm(fmt.Sprintf("(define-fun %s () %s %s)", smtName(t), sortSMT(t.sort, s.bv), s.body(t)))
 }
 
 // Assert adds a permanent fact to the run scope.
 func (s *Solver) Assert(t *Term) {
+	t = s.resolve(t)
 	s.emit(t)
 	s.sendPerm("(assert " + refSMT(t, s.bv) + ")")
 }
@@ -162,20 +191,26 @@ func (s *Solver) Check(extras []*Term, want []*Term, nonlinear bool) (res string
 	defer func() { s.Stats.Time += time.Since(t0) }()
 	s.Stats.Queries++
 	for _, e := range extras {
-		s.emit(e)
+		s.emit(s.resolve(e))
 	}
 	for _, w := range want {
 		s.emit(w)
 	}
 	s.in.WriteString("(push)\n")
 	for _, e := range extras {
-		s.in.WriteString("(assert " + refSMT(e, s.bv) + ")\n")
+		s.in.WriteString("(assert " + s.ref(e) + ")\n")
 	}
 	plain := "(check-sat)"
-	tactic := fmt.Sprintf("(check-sat-using (try-for %s %d))", nlsatTactic, s.timeout)
+	// non-linear: a short nlsat attempt in-process, then straight to the one-shot solvers (z3 5.1.0
+	// first: its incremental linearisation finds models of UF+NRA queries that nlsat grinds on)
+	tb := s.timeout
+	if tb > 2500 {
+		tb = 2500
+	}
+	tactic := fmt.Sprintf("(check-sat-using (try-for %s %d))", nlsatTactic, tb)
 	order := []string{plain, tactic}
 	if nonlinear {
-		order = []string{tactic, plain}
+		order = []string{tactic}
 	}
 	out := ""
 	for i, cmdText := range order {
@@ -216,7 +251,7 @@ func (s *Solver) Check(extras []*Term, want []*Term, nonlinear bool) (res string
 			}
 		}
 		s.Stats.Fallbacks++
-		r2, m2 := s.oneShot(extras, want)
+		r2, m2 := s.oneShot(extras, want, nonlinear)
 		if r2 != "" {
 			res, model = r2, m2
 		} else {
@@ -488,7 +523,7 @@ func (s *Solver) script(extras []*Term, want []*Term) string {
 		sb.WriteByte('\n')
 	}
 	for _, e := range extras {
-		sb.WriteString("(assert " + refSMT(e, s.bv) + ")\n")
+		sb.WriteString("(assert " + s.ref(e) + ")\n")
 	}
 	sb.WriteString("(check-sat)\n")
 	if len(want) > 0 {
@@ -510,7 +545,7 @@ func (s *Solver) dump(extras []*Term, res string) {
 }
 
 // oneShot re-decides the query in fresh processes (non-incremental tactics: nlsat etc.).
-func (s *Solver) oneShot(extras []*Term, want []*Term) (string, map[string]ModelVal) {
+func (s *Solver) oneShot(extras []*Term, want []*Term, nonlinear bool) (string, map[string]ModelVal) {
 	f, err := os.CreateTemp("", "qsym-*.smt2")
 	if err != nil {
 		return "", nil
@@ -519,7 +554,11 @@ func (s *Solver) oneShot(extras []*Term, want []*Term) (string, map[string]Model
 	f.WriteString(s.script(extras, want))
 	f.Close()
 	secs := s.timeout/1000 + 1
-	for _, bin := range []string{"z3", "z3-new"} {
+	bins := []string{"z3", "z3-new"}
+	if nonlinear {
+		bins = []string{"z3-new", "z3"}
+	}
+	for _, bin := range bins {
 		out, _ := exec.Command(bin, fmt.Sprintf("-T:%d", secs), "-memory:3000", f.Name()).CombinedOutput()
 		txt := string(out)
 		verdict := ""
